@@ -185,7 +185,7 @@ __CPROVER_decreases(columns - column)
  * ("categorical columns are never rescaled"):
  *   N <= 1 or disabled  =>  div_* = mul_* = 1, stdev = 0 (neutral scaling)
  *   N == 0 or disabled  =>  min = max = mean = 0
- *   N  > 1 and enabled  =>  mean = sum/N, stdev = sqrt((sumsq - sum*sum/N)/(N-1)),
+ *   N  > 1 and enabled  =>  mean = sum/N, stdev = sqrt(max((sumsq - sum*sum/N)/(N-1), 0)),
  *                           mul_range = max(max-min, eps), div_range = 1/mul_range  (the same denominator, bit-exact),
  *                           mul_stdev = max(stdev, eps),   div_stdev = 1/mul_stdev,
  *                           and both multipliers are numbers >= eps > 0  (so that div * mul = 1 over the reals) */
@@ -200,7 +200,8 @@ double nv_s_mean, nv_s_stdev, nv_s_mul_range, nv_s_div_range, nv_s_mul_stdev, nv
 #define NV_DONE_SPEC_DEFS (nv_s_n == NV_COL(stats, m_samples) && NV_IDENT(nv_s_min, NV_COL(stats, m_min)) && NV_IDENT(nv_s_max, NV_COL(stats, m_max)) \
   && NV_IDENT(nv_s_sum, NV_COL(stats, m_mean)) && NV_IDENT(nv_s_sq, NV_COL(stats, m_stdev)) \
   && NV_IDENT(nv_s_mean, NV_FDIV(nv_s_sum, NV_S_DN)) \
-  && NV_IDENT(nv_s_stdev, NV_SQRT(NV_FDIV(NV_USUB(nv_s_sq, NV_FDIV(NV_FMUL(nv_s_sum, nv_s_sum), NV_S_DN)), NV_USUB(NV_S_DN, 1.0)))) \
+  /* the deviation is the square root of the variance clamped at 0 (the rounded variance of constant values can be < 0) */ \
+  && NV_IDENT(nv_s_stdev, NV_SQRT(nv_fmax_m(0.0, NV_FDIV(NV_USUB(nv_s_sq, NV_FDIV(NV_FMUL(nv_s_sum, nv_s_sum), NV_S_DN)), NV_USUB(NV_S_DN, 1.0))))) \
   && NV_IDENT(nv_s_mul_range, NV_F_DONE_MUL(NV_F_DONE_RANGE(nv_s_max, nv_s_min), nv_eps)) && NV_IDENT(nv_s_div_range, NV_F_DONE_DIV(nv_s_mul_range)) \
   && NV_IDENT(nv_s_mul_stdev, NV_F_DONE_MUL(nv_s_stdev, nv_eps)) && NV_IDENT(nv_s_div_stdev, NV_F_DONE_DIV(nv_s_mul_stdev)))
 #define NV_DONE_C1 (NV_COL(stats, m_samples) == nv_s_n)
@@ -214,6 +215,7 @@ double nv_s_mean, nv_s_stdev, nv_s_mul_range, nv_s_div_range, nv_s_mul_stdev, nv
 #define NV_DONE_C7 ((nv_s_n > 1 && !NV_DIS) ==> (NV_IDENT(NV_COL(stats, m_mul_stdev), nv_s_mul_stdev) && NV_IDENT(NV_COL(stats, m_div_stdev), nv_s_div_stdev)))
 /* the range multiplier is a number >= eps (finite min <= max; the IEEE difference of ordered finite numbers is >= 0) */
 #define NV_DONE_C8 (NV_COL(stats, m_mul_range) >= nv_eps)
+#define NV_DONE_C9 (NV_COL(stats, m_mul_stdev) >= nv_eps)
 #define NV_DONE_OBJECTS \
   NV_COL(stats, m_min), NV_COL(stats, m_max), NV_COL(stats, m_mean), NV_COL(stats, m_stdev), NV_COL(stats, m_div_range), NV_COL(stats, m_mul_range), \
   NV_COL(stats, m_div_stdev), NV_COL(stats, m_mul_stdev), nv_other_d, nv_other_i, nv_other_u
@@ -226,16 +228,16 @@ __CPROVER_requires(NV_DONE_SPEC_DEFS) \
 __CPROVER_assigns(NV_DONE_OBJECTS) \
 __CPROVER_ensures(NV_DONE_C1) __CPROVER_ensures(NV_DONE_C2) __CPROVER_ensures(NV_DONE_C3) __CPROVER_ensures(NV_DONE_C4) \
 __CPROVER_ensures(NV_DONE_C5) __CPROVER_ensures(NV_DONE_C6) __CPROVER_ensures(NV_DONE_C7) __CPROVER_ensures(NV_DONE_C8) \
-/* the deviation multiplier is a number >= eps.  LAST clause on purpose: refuted on the unchanged library (the rounded \
- * variance can be negative, its sqrt is NaN and std::max(NaN, eps) is NaN), see replay/C14_replay.cpp */ \
-__CPROVER_ensures(NV_COL(stats, m_mul_stdev) >= nv_eps)
+/* the deviation multiplier is a number >= eps (was refuted before the variance was clamped at 0: sqrt of a slightly \
+ * negative rounded variance is NaN and std::max(NaN, eps) is NaN; see known_findings.txt and replay/C14_replay.cpp) */ \
+__CPROVER_ensures(NV_DONE_C9)
 
 #define NV_LOOP_stats_done_1 \
 __CPROVER_assigns(i, NV_DONE_OBJECTS) \
 __CPROVER_loop_invariant(0 <= i && i <= size && size == stats->m_samples.n) \
 __CPROVER_loop_invariant(i <= nv_gc ==> (NV_IDENT(NV_COL(stats, m_min), nv_s_min) && NV_IDENT(NV_COL(stats, m_max), nv_s_max) \
    && NV_IDENT(NV_COL(stats, m_mean), nv_s_sum) && NV_IDENT(NV_COL(stats, m_stdev), nv_s_sq))) \
-__CPROVER_loop_invariant(i > nv_gc ==> (NV_DONE_C1 && NV_DONE_C2 && NV_DONE_C3 && NV_DONE_C4 && NV_DONE_C5 && NV_DONE_C6 && NV_DONE_C7 && NV_DONE_C8)) \
+__CPROVER_loop_invariant(i > nv_gc ==> (NV_DONE_C1 && NV_DONE_C2 && NV_DONE_C3 && NV_DONE_C4 && NV_DONE_C5 && NV_DONE_C6 && NV_DONE_C7 && NV_DONE_C8 && NV_DONE_C9)) \
 __CPROVER_decreases(size - i)
 
 /* ============================================================================================== views
